@@ -16,7 +16,7 @@ class C07(e1.E1Check):
     types_quick = [I, var(I), var(var(I)), reg(0, I), reg(1, I), reg(2, I), reg(3, I), var(reg(2, I)), opt(var(I)), var(opt(I)),
                    var(rec(("x", I), ("y", F))), var(var(var(I))), reg(2, var(I)), var(S), var(opt(var(I))), opt(I)]
     types_thorough = types_quick + [var(reg(3, I)), reg(4, I), var(var(opt(I))), opt(var(var(I))), reg(2, reg(2, I)), rec(("x", I))]
-    bounds_quick = dict(N=3, M=3, K=7, enc_k=1, state_cap=100, parts=2)
+    bounds_quick = dict(N=2, M=3, K=6, enc_k=1, state_cap=50, parts=2)
     bounds_thorough = dict(N=4, M=4, K=10, enc_k=1, state_cap=2500, parts=8)
     rule = ("states = arrays whose lists at every level have lengths 0..M (regular sizes 0..3/4), missing lists, element types "
             "record/list/option/string, x every list-node encoding; transitions = combinations(n, replacement, axis, keys) for "
